@@ -367,6 +367,12 @@ def _hv(sid, a, b, policy='none', ver=0, sync=True, via='combos', **kw):
 
 def boundary():
     out = []
+    # the engine given per call (not the Harvester's own) decides format AND file name, consistently over sessions
+    for eng in ['joblib', 'h5netcdf']:
+        for n in ['h1', 'h1' + dsutil.EXT[eng]]:
+            h = _h(eng, [n, n], ['new', _hv(0, [1, 2], [1]), _hv(0, [2, 3], [2], via='add_ds'), 'new', _hv(1, [3], [1, 2], 'keep', via='cases')])
+            h['call_engine'] = True
+            out.append(h)
     for eng in ['joblib', 'h5netcdf']:
         e = dsutil.EXT[eng]
         for n1, n2 in [('h1', 'h1'), ('h1' + e, 'h1' + e), ('h1', 'h1' + e), ('h1' + e, 'h1')]:
@@ -488,7 +494,9 @@ def run_real(c, ctx):
             k = op['op']
             if k == 'new':
                 r = xyz.Runner(lambda a, b: 0.0, var_names='x')
-                sessions.append(xyz.Harvester(r, data_name=os.path.join(d, op['name']), engine=eng))
+                # with `call_engine` the object's own engine is the OTHER one and every call names `eng` explicitly
+                own = eng if not c.get('call_engine') else ('h5netcdf' if eng == 'joblib' else 'joblib')
+                sessions.append(xyz.Harvester(r, data_name=os.path.join(d, op['name']), engine=own))
                 obs.append({'ls': dsutil.listing(d)})
                 continue
             err, extra = None, {}
@@ -507,6 +515,7 @@ def run_real(c, ctx):
                             hv.runner = runner
                             kind, data = run_data(runner, op, bstr)
                             kw = dict(sync=op['sync'], overwrite=POL[op['policy']])
+                            if c.get('call_engine'): kw['engine'] = eng
                             if op['via'] in ('add_ds', 'add_da'):
                                 ds = runner.run_combos(data, verbosity=0) if kind == 'combos' else runner.run_cases(data, verbosity=0)
                                 extra['new'] = canon(ds)
@@ -535,6 +544,7 @@ def run_real(c, ctx):
             else:
                 hv = sessions[op['sid']]
                 try:
+                    if c.get('call_engine') and hv._full_ds is None: hv.load_full_ds(engine=eng)
                     o['mem'] = canon(hv.full_ds)
                 except Exception as e:
                     o['mem'] = 'ERR'
